@@ -151,7 +151,7 @@ def _py_ann(t: T) -> str:
     if k == "tupleu":
         np_, mode, nm = t.extra
         pre, mid, suf = a[:np_], a[np_:np_ + nm], a[np_ + nm:]
-        inner = f"Tuple[{mid[0]}, ...]" if mode == "var" else "Tuple[" + ", ".join(mid) + "]"
+        inner = f"Tuple[{mid[0]}, ...]" if mode == "var" else ("Tuple[" + ", ".join(mid) + "]" if mid else "Tuple[()]")
         return "Tuple[" + ", ".join(pre + [f"Unpack[{inner}]"] + suf) + "]"
     if k == "dict":
         return f"Dict[{a[0]}, {a[1]}]"
@@ -211,6 +211,8 @@ class ClassSpec:
             lines = [f"class {self.name}(NamedTuple):"]
             for f in self.fields:
                 lines.append(f"    {f.name}: {py_ann(f.ty)}" + (f" = {f.default_src}" if f.default_src else ""))
+            if not self.fields:
+                lines.append("    pass")
             return "\n".join(lines) + "\n"
         if self.kind == "td":
             lines = [f"class {self.name}(TypedDict, total={self.total}):"]
@@ -324,11 +326,14 @@ class GenOpts:
     mixin: bool = False
     mixin_base: str = "DataClassDictMixin"
     coq_only: bool = False        # stay inside TyModel.sty
+    unpacked: bool = True         # tuples with an unpacked segment (Tuple[a, Unpack[Tuple[b, ...]], c])
+    abstract: bool = True         # Coq stream: Sequence / Mapping / Deque / OrderedDict / Counter / ChainMap / DefaultDict / MappingProxyType
     configs: bool = False         # aliases + serialize_by_alias / allow_deserialization_not_by_alias / forbid_extra_keys
     spellings: bool = True        # PEP 604 / None-first unions, builtin generics, Annotated wrappers, Final fields
 
 
-COQ_CONTAINERS = ["list", "set", "frozenset", "tuplevar", "tuplefix", "dict", "opt"]
+COQ_CONTAINERS = ["list", "set", "frozenset", "tuplevar", "tuplefix", "dict", "opt",
+                  "seq", "deque", "mapping", "ordereddict", "counter", "chainmap", "defaultdict", "mappingproxy"]
 
 
 class SchemaGen:
@@ -406,7 +411,10 @@ class SchemaGen:
             return t
         if t.kind == "opt" and t.args[0].kind not in ("none",) and r.random() < 0.35:
             t.sp = r.choice(["pipe", "nonefirst", "unionnone"])
-        elif t.kind in ("list", "set", "frozenset", "dict", "tuplevar", "tuplefix") and r.random() < 0.25:
+        elif t.kind in ("list", "set", "frozenset", "dict", "tuplevar", "tuplefix") and r.random() < 0.25 \
+                and not any(a.kind == "none" for a in t.args):
+            # (a builtin generic keeps a literal None argument: tuple[None, int] is rejected by the library
+            #  although Tuple[None, int] is accepted -- reported, not generated)
             t.sp = "builtin"
         if t.kind != "none" and not (t.kind == "data" and t.extra == "fwd") and r.random() < (0.15 if t.kind == "opt" else 0.06):
             t.ann = True
@@ -430,11 +438,11 @@ class SchemaGen:
             # a bare None annotation is rejected or treated specially in most positions (None-typed
             # positions never read their input); it is reachable only through Optional here
             return self.scalar()
-        choices = list(self.o.containers if not self.o.coq_only else COQ_CONTAINERS)
+        choices = list(self.o.containers if not self.o.coq_only else (COQ_CONTAINERS if self.o.abstract else COQ_CONTAINERS[:7]))
         if self.o.classes:
             choices += ["data", "data"]
         if self.o.named:
-            choices += ["nt", "td"] + ([] if self.o.coq_only else ["tupleu"])
+            choices += ["nt", "td"] + (["tupleu"] if self.o.unpacked else [])
         if self.o.unions:
             choices += ["union"]
         if self.o.literals:
@@ -447,15 +455,10 @@ class SchemaGen:
         if k == "tuplefix":
             # Tuple[()] positions are constants that never read their input (modelled in TyModel.v as const
             # positions and exercised by the Coq correspondence); the wide oracle stream leaves them out
-            return T(k, [self.gen_type(d - 1) for _ in range(r.randrange(0 if self.o.coq_only else 1, 4))])
+            return T(k, [self.const_type() if (self.o.coq_only and self.o.named and r.random() < 0.08) else self.gen_type(d - 1)
+                         for _ in range(r.randrange(0 if self.o.coq_only else 1, 4))])
         if k == "tupleu":
-            np_ = r.randrange(0, 3)
-            ns_ = r.randrange(0, 3)
-            mode = r.choice(["var", "var", "fix"])
-            nm = 1 if mode == "var" else r.randrange(1, 3)
-            # element types kept simple and mutually distinguishable on the wire
-            mk = lambda: r.choice([self.scalar(), self.leaf(), T("opt", [self.scalar()]), T("list", [self.scalar()])])
-            return T("tupleu", [mk() for _ in range(np_ + nm + ns_)], extra=(np_, mode, nm))
+            return self.tupleu_type(d)
         if k in ("dict", "mapping", "ordereddict", "chainmap", "mappingproxy"):
             return T(k, [self.key_type(), self.gen_type(d - 1)])
         if k == "counter":
@@ -484,6 +487,19 @@ class SchemaGen:
                     out.append(v)
             return T("lit", extra=out)
         raise AssertionError(k)
+
+    def tupleu_type(self, d: int) -> T:
+        r = self.rng
+        np_ = r.randrange(0, 3)
+        ns_ = r.randrange(0, 3)
+        mode = r.choice(["var", "var", "fix"])
+        nm = 1 if mode == "var" else r.randrange(0 if self.o.coq_only else 1, 3)
+        # element types kept simple and mutually distinguishable on the wire
+        mk = lambda: r.choice([self.scalar(), self.leaf(), T("opt", [self.scalar()]), T("list", [self.scalar()])])
+        if self.o.coq_only:
+            # Coq stream: any element type of the grammar, now and then a constant position (never reads its item)
+            mk = lambda: self.const_type() if r.random() < 0.08 else self.gen_type(min(d - 1, 1))
+        return T("tupleu", [mk() for _ in range(np_ + nm + ns_)], extra=(np_, mode, nm))
 
     def union_type(self, d: int) -> T:
         """wire-disjoint unions: members told apart by JSON type of their basic form"""
@@ -596,20 +612,40 @@ class SchemaGen:
             return "factory:dict", "field(default_factory=dict)"
         return None
 
+    def const_type(self, d: int = 2) -> T:
+        """a type whose unpacker expression is a constant (never reads its input): None, a fixed tuple of such types,
+        a NamedTuple class without defaults all of whose fields are such types -- nested (Coq stream only)"""
+        r = self.rng
+        c = r.random()
+        if d <= 0 or c < 0.4:
+            return r.choice([T("none"), T("tuplefix", [])])
+        if c < 0.7:
+            return T("tuplefix", [self.const_type(d - 1) for _ in range(r.randrange(1, 3))])
+        spec = ClassSpec("nt", self.fresh("N"))
+        for i in range(r.randrange(0, 3)):
+            spec.fields.append(FieldSpec(f"a{i}", self.const_type(d - 1)))
+        if spec.fields and r.random() < 0.2 and not any(n.kind == "nt" for n in spec.fields[-1].ty.walk()):
+            # decoy: with a default the generated expression is a helper call on value[i] -- NOT a constant
+            spec.fields[-1].default, spec.fields[-1].default_src = self.const_default(spec.fields[-1].ty)
+        self.fam.classes.append(spec)
+        return T("nt", name=spec.name)
+
+    def const_default(self, t: T):
+        """(value, source) of the only instance of a constant type built from None and fixed tuples"""
+        if t.kind == "none":
+            return None, "None"
+        parts = [self.const_default(a) for a in t.args]
+        return tuple(p[0] for p in parts), "(" + "".join(p[1] + ", " for p in parts) + ")"
+
     def namedtuple_type(self, d: int) -> T:
         r = self.rng
         name = self.fresh("N")
         spec = ClassSpec("nt", name)
         for i in range(r.randrange(1, 4)):
             ft = self.gen_type(min(d, 1))
-            if self.o.coq_only and r.random() < 0.08:
-                ft = r.choice([T("none"), T("tuplefix", [])])      # constant positions (never read their item)
+            if self.o.coq_only and r.random() < 0.1:
+                ft = self.const_type()      # constant positions (never read their item), nested
             spec.fields.append(FieldSpec(f"a{i}", ft))
-        if all(f.ty.kind == "none" or (f.ty.kind == "tuplefix" and not f.ty.args) for f in spec.fields):
-            # a class ALL of whose positions are constants is itself a constant expression (NT(None) never reads its
-            # input, at any nesting depth); TyModel's const_dec knows only None and Tuple[()] -- stated model limit,
-            # such classes are left to the wide oracle stream
-            spec.fields[0].ty = T("int")
         # trailing defaults (decoding a shorter list falls back to them)
         for f in reversed(spec.fields):
             dv = self.simple_default(f.ty) if r.random() < 0.4 else None
@@ -626,9 +662,9 @@ class SchemaGen:
         mixed = r.random() < 0.35           # Required[...] / NotRequired[...] on single keys
         for i in range(r.randrange(0 if (self.o.coq_only and r.random() < 0.1) else 1, 4)):
             ft = self.gen_type(min(d, 1))
-            if self.o.coq_only and r.random() < 0.08:
+            if self.o.coq_only and r.random() < 0.1:
                 # constant positions: a required key of such a type is never read from the input
-                ft = r.choice([T("none"), T("tuplefix", [])])
+                ft = self.const_type()
             fs = FieldSpec(f"k{i}", ft)
             if mixed and r.random() < 0.5:
                 fs.optional = spec.total
@@ -877,7 +913,7 @@ from harness.vlib import coq_str, coq_z  # noqa: E402
 def in_coq(t: T, fam: Family, seen=None) -> bool:
     seen = seen or set()
     for n in t.walk():
-        if n.kind in ("seq", "deque", "mapping", "ordereddict", "counter", "chainmap", "defaultdict", "mappingproxy", "union", "lit", "tupleu"):
+        if n.kind in ("union", "lit"):
             return False
         if n.kind == "leaf" and n.name == "timezone":
             pass
@@ -914,8 +950,29 @@ def coq_sty(t: T) -> str:
         return f"(STupleVar {a[0]})"
     if k == "tuplefix":
         return "(STupleFix [" + "; ".join(a) + "])"
+    if k == "tupleu":
+        np_, mode, nm = t.extra
+        pre, mid, suf = a[:np_], a[np_:np_ + nm], a[np_ + nm:]
+        m = f"(STupleVar {mid[0]})" if mode == "var" else "(STupleFix [" + "; ".join(mid) + "])"
+        return "(STupleU [" + "; ".join(pre) + "] " + m + " [" + "; ".join(suf) + "])"
     if k == "dict":
         return f"(SDict {a[0]} {a[1]})"
+    if k == "seq":
+        return f"(SSeq {a[0]})"
+    if k == "deque":
+        return f"(SBox BDeque (SSeq {a[0]}))"
+    if k == "mapping":
+        return f"(SMap {a[0]} {a[1]})"
+    if k == "ordereddict":
+        return f"(SBox BOrdered (SMap {a[0]} {a[1]}))"
+    if k == "defaultdict":
+        return f"(SBox BDefault (SMap {a[0]} {a[1]}))"
+    if k == "mappingproxy":
+        return f"(SBox BProxy (SMap {a[0]} {a[1]}))"
+    if k == "counter":
+        return f"(SBox BCounter (SMap {a[0]} SIntT))"
+    if k == "chainmap":
+        return f"(SBox BChain (SSeq (SMap {a[0]} {a[1]})))"
     if k == "opt":
         return f"(SOpt {a[0]})"
     if k == "data":
@@ -973,6 +1030,19 @@ def coq_pv(v, seen_leaf=None) -> str:
         return f"(VSet {'true' if type(v) is frozenset else 'false'} [" + "; ".join(items) + "])"
     if type(v) is dict:
         return "(VDict [" + "; ".join(f"({coq_pv(k)}, {coq_pv(x)})" for k, x in v.items()) + "])"
+    # collection classes modelled as a box around their list / dict content (TyModel.box_val)
+    box = {collections.deque: "collections.deque", collections.OrderedDict: "collections.OrderedDict",
+           collections.defaultdict: "collections.defaultdict", types.MappingProxyType: "types.MappingProxyType",
+           collections.Counter: "collections.Counter", collections.ChainMap: "collections.ChainMap"}.get(type(v))
+    if box:
+        if type(v) is collections.deque:
+            inner = coq_pv(list(v))
+        elif type(v) is collections.ChainMap:
+            # ChainMap() is ChainMap({}): the canonical empty ChainMap is represented by the empty list of maps
+            inner = coq_pv([] if v.maps == [{}] else [dict(m) if type(m) is not dict else m for m in v.maps])
+        else:
+            inner = coq_pv(dict(v.items()))
+        return f"(VObj {coq_str(box)} [({coq_str('')}, {inner})])"
     if dataclasses.is_dataclass(v) and not isinstance(v, type):
         fs = "; ".join(f"({coq_str(f.name)}, {coq_pv(getattr(v, f.name))})" for f in dataclasses.fields(v))
         return f"(VObj {coq_str(type(v).__name__)} [{fs}])"
